@@ -231,6 +231,27 @@ def run(ck):
             if numpy.abs(R3 - R).max() > 1e-9 * scale:
                 ck.fail("golden:matrix:hand-built-sbi", "Redfield rates for a system-bath interaction assembled by hand (explicit function indices) differ "
                         "from those of the aggregate's own system-bath interaction with the same bath functions", inp, float(numpy.abs(R3 - R).max() / scale))
+            # filled in two steps: the bath of the first site on all sites, then every other site gets its own function
+            cmy = CorrelationFunctionMatrix(ta, n)
+            cmy.set_correlation_function(sbi.CC.get_correlation_function(0, 0), [(k, k) for k in range(n)])
+            for k in range(1, n):
+                if sbi.CC.get_correlation_function(k, k) is not sbi.CC.get_correlation_function(0, 0):
+                    cmy.set_correlation_function(sbi.CC.get_correlation_function(k, k), [(k, k)])
+            sby = SystemBathInteraction(opsx, cmy)
+            lam_y = [float(cmy.get_reorganization_energy(k, k)) for k in range(n)]
+            lam_0 = [float(sbi.CC.get_reorganization_energy(k, k)) for k in range(n)]
+            ck.case(("refilled-sbi", s), nontrivial=unequal, kind="redfield", sites=n, T=T, far=far, unequal_lambda=unequal)
+            if max(abs(a_ - b_) for a_, b_ in zip(lam_y, lam_0)) > 1e-12 * max(lam_0):
+                ck.fail("foerster:site-reorganisation-energy:refilled-sbi", "site reorganisation energies of a correlation-function matrix filled in two steps (common bath "
+                        "first, own baths afterwards) are not those of the functions the sites ended up with", inp, lam_y, lam_0)
+            R4 = numpy.array(RedfieldRateMatrix(ham, sby).data)
+            if numpy.abs(R4 - R).max() > 1e-9 * scale:
+                ck.fail("golden:matrix:refilled-sbi", "Redfield rates for a correlation-function matrix filled in two steps differ from those of the aggregate's own "
+                        "system-bath interaction with the same bath functions", inp, float(numpy.abs(R4 - R).max() / scale))
+            F0 = numpy.array(FoersterRateMatrix(ham, sbi).data); F4 = numpy.array(FoersterRateMatrix(ham, sby).data)
+            if numpy.abs(F4 - F0).max() > 1e-9 * (numpy.abs(F0).max() or 1.0):
+                ck.fail("db:foerster:refilled-sbi", "Foerster rates for a correlation-function matrix filled in two steps differ from those of the aggregate's own "
+                        "system-bath interaction with the same bath functions", inp, float(numpy.abs(F4 - F0).max() / (numpy.abs(F0).max() or 1.0)))
         except Exception as e:
             ck.fail("raises:RedfieldRateMatrix:hand-built-sbi", "construction from a hand-built system-bath interaction raised %r" % (e,), inp)
         # the tensor built with a cut-off time on axes of different step (the cut-off is a time, not a number of points): same downhill
@@ -385,6 +406,16 @@ def run(ck):
                 if Tuse != T and trial % 2 == 0:
                     continue
                 ft = ft_call()
+                if Tuse == T and trial % 2 == 1:
+                    # asked for inside a units context: the same function
+                    unk = ("1/cm", "eV", "THz")[(trial // 2) % 3]
+                    with energy_units(unk):
+                        ftu = sd.get_FTCorrelationFunction()
+                    dvu = float(numpy.abs(numpy.array(ftu.data) - numpy.array(ft.data)).max() / numpy.abs(numpy.array(ft.data)).max())
+                    ck.resid("FT correlation function requested inside a units context vs outside", dvu)
+                    if dvu > 1e-12:
+                        ck.fail("kms:ftcorr:units-context", "get_FTCorrelationFunction() called inside energy_units(%r) returns other values than outside (the relation "
+                                "C(-w) = exp(-w/kT) C(w) holds for at most one of them)" % unk, dict(inp, units=unk), dvu)
                 c = numpy.real(numpy.array(ft.data))
                 with energy_units("int"):
                     w = numpy.array(ft.axis.data)
